@@ -7,6 +7,7 @@ BIN = "h_world"
 
 # Per property: monitor tags that decide it, op kinds whose results form its projection of the
 # transcript (a model/implementation DIFF on another op kind is somebody else's business).
+PROBE_OPS = {"alive", "walive", "ejoin", "mask", "events"}   # printed by the harness after every mutating op anyway
 STORE_OPS = ["get", "getmut", "has", "ins", "rem", "entry_or", "entry_rep", "entry_rem", "mut_or_default"]
 PROPS = {
     "C01": {"mon": ["C01"], "proj": ["create", "create_iter", "createw", "lazy_create"], "kind": "ent",
@@ -236,8 +237,33 @@ def report_failures(prop, tier, seed, results):
                 print(f"VIOLATION property={prop} replay={path} no-failing-input-found")
             violations += 1
         else:
-            path = vlib.write_replay(prop, f"crash-{seed}", [f"harness run {r['label']} did not complete: rc={r['hrc']} {r['hang']} {r['bad'][:2]}", r["err"]])
-            print(f"VIOLATION property={prop} replay={path} no-failing-input-found")
+            # the process running the real code died (abort, segmentation fault): run the command again with every op
+            # announced before it is executed; the last case of that transcript is the script that kills the process
+            if "crash" in seen_canon:
+                continue
+            seen_canon.add("crash")
+            ops = []
+            if r["hrc"] not in (0, None) and not r["hang"]:
+                keep = os.path.join(vlib.TMP, f"crash-{os.getpid()}.txt")
+                env = henv(); env["VH_EAGER"] = "1"
+                vlib.pipe_to_driver([vlib.hbin(BIN)] + r["tail"], keep=keep, env=env)
+                cid, ops = vlib.last_case(keep) if os.path.exists(keep) else (None, [])
+                if os.path.exists(keep):
+                    os.unlink(keep)
+                ops = [o for o in ops if o.split()[0] not in PROBE_OPS]
+            def still_dies(o):
+                return run_script_ops(o).get("hrc") not in (0, None)
+            if ops and still_dies(ops):
+                ops = vlib.ddmin(ops, still_dies)
+                path = vlib.write_replay(prop, f"abort-{seed}",
+                                         [f"property {prop}: {spec['what']}",
+                                          f"the process running the real code dies inside the last operation of this script (harness exit status {r['hrc']}; {r['err'].strip()[-300:]})",
+                                          f"found by: h_world {' '.join(r['tail'])} (case {cid}); minimised by ddmin",
+                                          f"replay: bin/check {prop} --replay <this file>"], ops, "world")
+                print(f"VIOLATION property={prop} replay={path}")
+            else:
+                path = vlib.write_replay(prop, f"crash-{seed}", [f"harness run {r['label']} did not complete: rc={r['hrc']} {r['hang']} {r['bad'][:2]}", r["err"]])
+                print(f"VIOLATION property={prop} replay={path} no-failing-input-found")
             violations += 1
         if violations >= 3:
             break
